@@ -315,18 +315,50 @@ pub fn dec_item(s: &Sx) -> Option<Item> {
                 Some(Item::intvec(IntVector::new(v)))
             } else if let Some(v) = dec_fv(s) {
                 Some(Item::floatvec(FloatVector::new(v)))
-            } else if let Some(xs) = tagged(s, "g") {
-                // only the empty graph literal can be rebuilt without the id hook
-                match (&xs.get(0)?, &xs.get(1)?) {
-                    (Sx::List(a), Sx::List(b)) if a.is_empty() && b.is_empty() => Some(Item::graph()),
-                    _ => None,
-                }
+            } else if tagged(s, "g").is_some() {
+                Some(Item::Literal { push_type: PushType::Graph { val: dec_graph(s)? } })
             } else {
                 None
             }
         }
     }
 }
+/// rebuilds a graph with its recorded node ids (needs the cfg(pushr_verif) hook `Node::with_id`)
+pub fn dec_graph(s: &Sx) -> Option<Graph> {
+    let xs = tagged(s, "g")?;
+    let mut g = Graph::new();
+    if let Sx::List(ns) = xs.get(0)? {
+        for n in ns {
+            if let Sx::List(p) = n {
+                let id = dec_usize(p.get(0)?)?;
+                let st = dec_i32(p.get(1)?)?;
+                g.nodes.insert(id, pushr::push::graph::Node::with_id(id, st));
+            } else {
+                return None;
+            }
+        }
+    }
+    if let Sx::List(es) = xs.get(1)? {
+        for e in es {
+            if let Sx::List(p) = e {
+                let d = dec_usize(p.get(0)?)?;
+                let mut l = vec![];
+                for oe in &p[1..] {
+                    if let Sx::List(q) = oe {
+                        l.push(pushr::push::graph::Edge::new(dec_usize(q.get(0)?)?, dec_f32(q.get(1)?)?));
+                    } else {
+                        return None;
+                    }
+                }
+                g.edges.insert(d, l);
+            } else {
+                return None;
+            }
+        }
+    }
+    Some(g)
+}
+
 pub fn dec_items_top_first(s: &Sx) -> Option<Vec<Item>> {
     match s {
         Sx::List(v) => v.iter().map(dec_item).collect(),
@@ -382,11 +414,7 @@ pub fn dec_state(s: &Sx) -> Option<PushState> {
     }
     if let Sx::List(v) = &xs[12] {
         for g in &v[1..] {
-            let gx = tagged(g, "g")?;
-            match (&gx[0], &gx[1]) {
-                (Sx::List(a), Sx::List(b)) if a.is_empty() && b.is_empty() => st.graph_stack.push(Graph::new()),
-                _ => return None,
-            }
+            st.graph_stack.push(dec_graph(g)?);
         }
     }
     for kv in dec_list(&xs[13], |p| match p {
